@@ -51,6 +51,197 @@ static int mkfile(const char *path, int nz, unsigned seed, int with_coords, int 
     return cg_close(fn);
 }
 
+
+#include "cgns_io.h"
+
+/* ---- a "rich" target file: units, family + FamilyBC + dataset, an unstructured zone with MIXED / QUAD_4 (+ parent data) /
+        NGON_n / NFACE_n sections, a solution, a BC with a data set and a family name, and a structured zone ---- */
+static int mkrich(const char *path, unsigned seed) {
+    int fn, B, Z, S, F, C, BC, DS, Fam, FBC;
+    cgsize_t usize[3] = {8, 2, 0}, ssize[9] = {3, 3, 3, 2, 2, 2, 0, 0, 0};
+    double buf[27];
+    static const char *cn[3] = {"CoordinateX", "CoordinateY", "CoordinateZ"};
+    cgsize_t mixed[14] = {CGNS_ENUMV(HEXA_8), 1, 2, 3, 4, 5, 6, 7, 8, CGNS_ENUMV(TETRA_4), 1, 2, 3, 5}, moff[3] = {0, 9, 14};
+    cgsize_t quads[8] = {1, 2, 3, 4, 5, 6, 7, 8}, pdata[8] = {1, 1, 0, 0, 1, 6, 0, 0};
+    cgsize_t ngon[24] = {1,2,3,4, 5,6,7,8, 1,2,6,5, 2,3,7,6, 3,4,8,7, 4,1,5,8}, noff[7] = {0, 4, 8, 12, 16, 20, 24};
+    cgsize_t nface[6] = {5, 6, 7, 8, 9, 10}, foff[2] = {0, 6}, pts[4] = {1, 2, 3, 4};
+    unlink(path);
+    if (cg_open(path, CG_MODE_WRITE, &fn)) return 1;
+    if (cg_base_write(fn, "Base", 3, 3, &B)) return 1;
+    if (cg_goto(fn, B, "end") || cg_units_write(CGNS_ENUMV(Kilogram), CGNS_ENUMV(Meter), CGNS_ENUMV(Second), CGNS_ENUMV(Celsius), CGNS_ENUMV(Degree))) return 1;
+    if (cg_family_write(fn, B, "Fam", &Fam) || cg_fambc_write(fn, B, Fam, "FBC", CGNS_ENUMV(BCWall), &FBC)) return 1;
+    if (cg_goto(fn, B, "Family_t", Fam, "FamilyBC_t", FBC, "end") || cg_bcdataset_write("FDS", CGNS_ENUMV(BCWall), CGNS_ENUMV(Dirichlet))) return 1;
+    if (cg_zone_write(fn, B, "ZoneU", usize, CGNS_ENUMV(Unstructured), &Z)) return 1;
+    for (int c = 0; c < 3; c++) { for (int i = 0; i < 8; i++) buf[i] = val(seed, 9, c, i); if (cg_coord_write(fn, B, Z, CGNS_ENUMV(RealDouble), cn[c], buf, &C)) return 1; }
+    if (cg_goto(fn, B, "Zone_t", Z, "end") || cg_famname_write("Fam")) return 1;
+    if (cg_units_write(CGNS_ENUMV(Kilogram), CGNS_ENUMV(Meter), CGNS_ENUMV(Second), CGNS_ENUMV(Celsius), CGNS_ENUMV(Degree))) return 1;
+    if (cg_poly_section_write(fn, B, Z, "Mixed", CGNS_ENUMV(MIXED), 1, 2, 0, mixed, moff, &S)) return 1;
+    if (cg_section_write(fn, B, Z, "Quads", CGNS_ENUMV(QUAD_4), 3, 4, 0, quads, &S)) return 1;
+    if (cg_parent_data_write(fn, B, Z, S, pdata)) return 1;
+    if (cg_poly_section_write(fn, B, Z, "Ngon", CGNS_ENUMV(NGON_n), 5, 10, 0, ngon, noff, &S)) return 1;
+    if (cg_poly_section_write(fn, B, Z, "Nface", CGNS_ENUMV(NFACE_n), 11, 11, 0, nface, foff, &S)) return 1;
+    if (cg_sol_write(fn, B, Z, "Sol", CGNS_ENUMV(Vertex), &S)) return 1;
+    for (int i = 0; i < 8; i++) buf[i] = val(seed, 9, 7, i);
+    if (cg_field_write(fn, B, Z, S, CGNS_ENUMV(RealDouble), "Density", buf, &F)) return 1;
+    if (cg_boco_write(fn, B, Z, "Wall", CGNS_ENUMV(BCWall), CGNS_ENUMV(PointList), 4, pts, &BC)) return 1;
+    if (cg_dataset_write(fn, B, Z, BC, "DS", CGNS_ENUMV(BCWall), &DS)) return 1;
+    if (cg_goto(fn, B, "Zone_t", Z, "ZoneBC_t", 1, "BC_t", BC, "end") || cg_famname_write("Fam")) return 1;
+    if (cg_zone_write(fn, B, "ZoneS", ssize, CGNS_ENUMV(Structured), &Z)) return 1;
+    for (int c = 0; c < 3; c++) { for (int i = 0; i < 27; i++) buf[i] = val(seed, 2, c, i); if (cg_coord_write(fn, B, Z, CGNS_ENUMV(RealDouble), cn[c], buf, &C)) return 1; }
+    if (cg_sol_write(fn, B, Z, "Sol", CGNS_ENUMV(Vertex), &S)) return 1;
+    for (int i = 0; i < 27; i++) buf[i] = val(seed, 2, 7, i);
+    if (cg_field_write(fn, B, Z, S, CGNS_ENUMV(RealDouble), "Density", buf, &F)) return 1;
+    return cg_close(fn);
+}
+
+/* ---- the file that links into it: whole zones and a family by link, and a zone of its own whose children are links ---- */
+static int mklinks(const char *path, const char *target, int flags) {      /* 1: NGON_n / NFACE_n links too, 2: DimensionalUnits_t linked directly */
+    int with_poly = flags & 1;
+    int fn, B, Z; cgsize_t usize[3] = {8, 2, 0};
+    static const char *kids[] = {"GridCoordinates", "Mixed", "Quads", "Sol", "ZoneBC", "Ngon", "Nface"};
+    char tp[200];
+    unlink(path);
+    if (cg_open(path, CG_MODE_WRITE, &fn)) return 1;
+    if (cg_base_write(fn, "Base", 3, 3, &B)) return 1;
+    if (cg_goto(fn, B, "end")) return 1;
+    if (cg_link_write("ZoneU", target, "/Base/ZoneU") || cg_link_write("ZoneS", target, "/Base/ZoneS") ||
+        cg_link_write("Fam", target, "/Base/Fam")) return 1;
+    if (cg_zone_write(fn, B, "Own", usize, CGNS_ENUMV(Unstructured), &Z)) return 1;
+    if (cg_goto(fn, B, "Zone_t", Z, "end")) return 1;
+    for (int i = 0; i < (with_poly ? 7 : 5); i++) { sprintf(tp, "/Base/ZoneU/%s", kids[i]); if (cg_link_write(kids[i], target, tp)) return 1; }
+    if ((flags & 2) && cg_link_write("DimensionalUnits", target, "/Base/DimensionalUnits")) return 1;
+    return cg_close(fn);
+}
+
+static unsigned long long fnv(unsigned long long h, const void *p, size_t n) {
+    const unsigned char *c = p; while (n--) { h ^= *c++; h *= 1099511628211ULL; } return h;
+}
+#define HS(s) h = fnv(h, (s), strlen(s))
+#define HV(v) h = fnv(h, &(v), sizeof(v))
+
+/* ---- read broadly through whatever the file holds; one digest line; reading errors are counted, not fatal ---- */
+static void readall(int fn) {
+    unsigned long long h = 1469598103934665603ULL; int nerr = 0, items = 0, nb = 0;
+    char nm[64], fam[200];
+    if (cg_nbases(fn, &nb)) { printf("err cg\n"); return; }
+    for (int B = 1; B <= nb; B++) {
+        int cd, pd, nz = 0, nf = 0;
+        if (cg_base_read(fn, B, nm, &cd, &pd)) { nerr++; continue; }
+        HS(nm); HV(cd); HV(pd); items++;
+        if (!cg_goto(fn, B, "end")) {
+            CGNS_ENUMT(MassUnits_t) m; CGNS_ENUMT(LengthUnits_t) l; CGNS_ENUMT(TimeUnits_t) t; CGNS_ENUMT(TemperatureUnits_t) te; CGNS_ENUMT(AngleUnits_t) a;
+            if (!cg_units_read(&m, &l, &t, &te, &a)) { HV(m); HV(l); HV(t); HV(te); HV(a); items++; }
+        }
+        if (cg_nfamilies(fn, B, &nf)) nerr++;
+        for (int F = 1; F <= nf; F++) {
+            int nfb, ngeo;
+            if (cg_family_read(fn, B, F, nm, &nfb, &ngeo)) { nerr++; continue; }
+            HS(nm); HV(nfb); items++;
+            for (int k = 1; k <= nfb; k++) {
+                CGNS_ENUMT(BCType_t) bt; int nds = 0;
+                if (cg_fambc_read(fn, B, F, k, nm, &bt)) { nerr++; continue; }
+                HS(nm); HV(bt); items++;
+                if (cg_goto(fn, B, "Family_t", F, "FamilyBC_t", k, "end") || cg_bcdataset_info(&nds)) { nerr++; continue; }
+                for (int d = 1; d <= nds; d++) { int df, nf2; if (cg_bcdataset_read(d, nm, &bt, &df, &nf2)) nerr++; else { HS(nm); HV(bt); HV(df); HV(nf2); items++; } }
+            }
+        }
+        if (cg_nzones(fn, B, &nz)) { nerr++; continue; }
+        for (int Z = 1; Z <= nz; Z++) {
+            cgsize_t sz[9] = {0}; CGNS_ENUMT(ZoneType_t) zt; int nc = 0, ns = 0, nsol = 0, nbc = 0, idim = 1; cgsize_t npts = 1;
+            if (cg_zone_read(fn, B, Z, nm, sz) || cg_zone_type(fn, B, Z, &zt)) { nerr++; continue; }
+            h = fnv(h, sz, sizeof sz); HV(zt); items++;     /* the zone's own name is the link's, not hashed */
+            if (zt == CGNS_ENUMV(Structured)) { idim = 3; npts = sz[0] * sz[1] * sz[2]; } else npts = sz[0];
+            if (!cg_goto(fn, B, "Zone_t", Z, "end") && !cg_famname_read(fam)) { HS(fam); items++; }
+            if (!cg_goto(fn, B, "Zone_t", Z, "end")) {
+                CGNS_ENUMT(MassUnits_t) m; CGNS_ENUMT(LengthUnits_t) l; CGNS_ENUMT(TimeUnits_t) t; CGNS_ENUMT(TemperatureUnits_t) te; CGNS_ENUMT(AngleUnits_t) a;
+                if (!cg_units_read(&m, &l, &t, &te, &a)) { HV(m); HV(l); HV(t); HV(te); HV(a); items++; }
+            }
+            cgsize_t lo[3] = {1, 1, 1}, hi[3] = {sz[0], sz[1], sz[2]};
+            if (idim == 1) hi[0] = npts;
+            if (cg_ncoords(fn, B, Z, &nc)) nerr++;
+            for (int c = 1; c <= nc; c++) {
+                CGNS_ENUMT(DataType_t) dt; double *b = malloc(sizeof(double) * (size_t)npts);
+                if (cg_coord_info(fn, B, Z, c, &dt, nm) || cg_coord_read(fn, B, Z, nm, CGNS_ENUMV(RealDouble), lo, hi, b)) nerr++;
+                else { HS(nm); h = fnv(h, b, sizeof(double) * (size_t)npts); items++; }
+                free(b);
+            }
+            if (cg_nsections(fn, B, Z, &ns)) nerr++;
+            for (int S = 1; S <= ns; S++) {
+                CGNS_ENUMT(ElementType_t) et; cgsize_t st, en, dsz = 0; int nb2, pf;
+                if (cg_section_read(fn, B, Z, S, nm, &et, &st, &en, &nb2, &pf) || cg_ElementDataSize(fn, B, Z, S, &dsz)) { nerr++; continue; }
+                HS(nm); HV(et); HV(st); HV(en); HV(pf); HV(dsz); items++;
+                cgsize_t ne = en - st + 1, *el = malloc(sizeof(cgsize_t) * (size_t)(dsz + 1)), *off = malloc(sizeof(cgsize_t) * (size_t)(ne + 2)), *par = pf ? malloc(sizeof(cgsize_t) * (size_t)(4 * ne)) : NULL;
+                int e = (et == CGNS_ENUMV(MIXED) || et == CGNS_ENUMV(NGON_n) || et == CGNS_ENUMV(NFACE_n)) ?
+                        cg_poly_elements_read(fn, B, Z, S, el, off, par) : cg_elements_read(fn, B, Z, S, el, par);
+                if (e) nerr++;
+                else {
+                    h = fnv(h, el, sizeof(cgsize_t) * (size_t)dsz);
+                    if (et == CGNS_ENUMV(MIXED) || et == CGNS_ENUMV(NGON_n) || et == CGNS_ENUMV(NFACE_n)) h = fnv(h, off, sizeof(cgsize_t) * (size_t)(ne + 1));
+                    if (par) h = fnv(h, par, sizeof(cgsize_t) * (size_t)(4 * ne));
+                    items++;
+                }
+                free(el); free(off); free(par);
+            }
+            if (cg_nsols(fn, B, Z, &nsol)) nerr++;
+            for (int S = 1; S <= nsol; S++) {
+                CGNS_ENUMT(GridLocation_t) loc; int nfl = 0;
+                if (cg_sol_info(fn, B, Z, S, nm, &loc) || cg_nfields(fn, B, Z, S, &nfl)) { nerr++; continue; }
+                HS(nm); HV(loc); items++;
+                for (int f = 1; f <= nfl; f++) {
+                    CGNS_ENUMT(DataType_t) dt; double *b = malloc(sizeof(double) * (size_t)npts);
+                    if (cg_field_info(fn, B, Z, S, f, &dt, nm) || cg_field_read(fn, B, Z, S, nm, CGNS_ENUMV(RealDouble), lo, hi, b)) nerr++;
+                    else { HS(nm); h = fnv(h, b, sizeof(double) * (size_t)npts); items++; }
+                    free(b);
+                }
+            }
+            if (cg_nbocos(fn, B, Z, &nbc)) nerr++;
+            for (int k = 1; k <= nbc; k++) {
+                CGNS_ENUMT(BCType_t) bt; CGNS_ENUMT(PointSetType_t) pt; cgsize_t np, nls; int nidx[3], nds; CGNS_ENUMT(DataType_t) ndt;
+                if (cg_boco_info(fn, B, Z, k, nm, &bt, &pt, &np, nidx, &nls, &ndt, &nds)) { nerr++; continue; }
+                HS(nm); HV(bt); HV(pt); HV(np); HV(nds); items++;
+                cgsize_t *pp = malloc(sizeof(cgsize_t) * (size_t)(np * idim + 1));
+                if (cg_boco_read(fn, B, Z, k, pp, NULL)) nerr++; else { h = fnv(h, pp, sizeof(cgsize_t) * (size_t)(np * idim)); items++; }
+                free(pp);
+                for (int d = 1; d <= nds; d++) { int df, nf2; if (cg_dataset_read(fn, B, Z, k, d, nm, &bt, &df, &nf2)) nerr++; else { HS(nm); HV(bt); HV(df); HV(nf2); items++; } }
+                if (!cg_goto(fn, B, "Zone_t", Z, "ZoneBC_t", 1, "BC_t", k, "end") && !cg_famname_read(fam)) { HS(fam); items++; }
+            }
+        }
+    }
+    printf("ok A:%d:%016llx:%d\n", items, h, nerr);
+}
+
+/* ---- a complete cgio dump of a file, links recorded and never followed: one line ---- */
+static int io_dump_node(int cg, double id, int depth) {
+    char nm[80], lb[80], ty[80]; int len, nd, nk, got; cgsize_t d[CGIO_MAX_DIMENSIONS]; cglong_t size = 0;
+    if (cgio_get_name(cg, id, nm) || cgio_is_link(cg, id, &len)) return 1;
+    printf("{"); hexstr(nm);
+    if (len > 0) {
+        static char fl[4200], pa[4200];
+        if (cgio_get_link(cg, id, fl, pa)) return 1;
+        printf(" L "); hexstr(fl); printf(" "); hexstr(pa); printf("}"); return 0;
+    }
+    if (cgio_get_label(cg, id, lb) || cgio_get_data_type(cg, id, ty) || cgio_get_dimensions(cg, id, &nd, d)) return 1;
+    printf(" "); hexstr(lb); printf(" %s ", ty);
+    if (!nd) printf("-"); for (int i = 0; i < nd; i++) printf("%s%lld", i ? "," : "", (long long)d[i]);
+    printf(" ");
+    if (strcmp(ty, "MT") && nd > 0 && !cgio_get_data_size(cg, id, &size) && size > 0 && size < 4000000) {
+        unsigned char *b = malloc((size_t)size);
+        if (cgio_read_all_data_type(cg, id, ty, b)) printf("nodata"); else hexout(b, (size_t)size);
+        free(b);
+    } else printf("-");
+    if (cgio_number_children(cg, id, &nk)) return 1;
+    if (nk > 0 && depth < 30) {
+        double *ids = malloc(sizeof(double) * nk);
+        if (cgio_children_ids(cg, id, 1, nk, &got, ids)) { free(ids); return 1; }
+        for (int i = 0; i < got; i++) if (io_dump_node(cg, ids[i], depth + 1)) { free(ids); return 1; }
+        free(ids);
+    }
+    printf("}");
+    return 0;
+}
+static int IO = 0, IOOPEN = 0;
+static int io_node(const char *path, double *id) { double root; return cgio_get_root_id(IO, &root) || cgio_get_node_id(IO, root, path, id); }
+
 int main(void) {
     static char line[70000], a[5][16000], b[5][8000];
     int h, B, Z;
@@ -74,6 +265,46 @@ int main(void) {
         } else if (!strcmp(cmd, "mkfile")) {
             int nz, wc, ws; unsigned seed; sscanf(line, "%*s %s %d %u %d %d", a[0], &nz, &seed, &wc, &ws); unhex(a[0], b[0]);
             printf(mkfile(b[0], nz, seed, wc, ws) ? "err cg\n" : "ok\n");
+        } else if (!strcmp(cmd, "mkrich")) {
+            unsigned seed; sscanf(line, "%*s %s %u", a[0], &seed); unhex(a[0], b[0]);
+            printf(mkrich(b[0], seed) ? "err cg\n" : "ok\n");
+        } else if (!strcmp(cmd, "mklinks")) {
+            int wp; sscanf(line, "%*s %s %s %d", a[0], a[1], &wp); unhex(a[0], b[0]); unhex(a[1], b[1]);
+            printf(mklinks(b[0], b[1], wp) ? "err cg\n" : "ok\n");
+        } else if (!strcmp(cmd, "readall")) {
+            sscanf(line, "%*s %d", &h);
+            if (h < 0 || h >= MAXH || !OPEN[h]) printf("err cg\n"); else readall(FN[h]);
+        } else if (!strcmp(cmd, "io.dump")) {
+            int cg; double root; sscanf(line, "%*s %s", a[0]); unhex(a[0], b[0]);
+            if (cgio_open_file(b[0], CGIO_MODE_READ, CGIO_FILE_NONE, &cg) || cgio_get_root_id(cg, &root)) { printf("err io\n"); continue; }
+            printf("ok D:"); int e = io_dump_node(cg, root, 0); printf(e ? " !err\n" : "\n"); cgio_close_file(cg);
+        } else if (!strcmp(cmd, "io.open")) {
+            sscanf(line, "%*s %s", a[0]); unhex(a[0], b[0]);
+            if (IOOPEN || cgio_open_file(b[0], CGIO_MODE_MODIFY, CGIO_FILE_NONE, &IO)) printf("err io\n"); else { IOOPEN = 1; printf("ok\n"); }
+        } else if (!strcmp(cmd, "io.close")) {
+            if (!IOOPEN) { printf("err io\n"); continue; }
+            IOOPEN = 0; printf(cgio_close_file(IO) ? "err io\n" : "ok\n");
+        } else if (!strcmp(cmd, "io.del")) {
+            double id, pid; sscanf(line, "%*s %s", a[0]); unhex(a[0], b[0]);
+            char *sl = strrchr(b[0], '/'); strcpy(b[1], b[0]); b[1][sl - b[0] ? sl - b[0] : 1] = 0;
+            if (!IOOPEN || io_node(b[0], &id) || io_node(b[1], &pid) || cgio_delete_node(IO, pid, id)) printf("err io\n"); else printf("ok\n");
+        } else if (!strcmp(cmd, "io.set")) {
+            double id; char ty[16]; cgsize_t d[12]; int nd = 0; sscanf(line, "%*s %s %15s %s %s", a[0], ty, a[1], a[2]); unhex(a[0], b[0]);
+            for (char *q = a[1]; *q && *q != '-'; ) { d[nd++] = (cgsize_t)strtoll(q, &q, 10); if (*q == ',') q++; }
+            static char data[8000]; unhex(a[2], data);
+            if (!IOOPEN || io_node(b[0], &id) || cgio_set_dimensions(IO, id, ty, nd, d) || (nd && cgio_write_all_data(IO, id, data))) printf("err io\n"); else printf("ok\n");
+        } else if (!strcmp(cmd, "io.new")) {
+            double id, pid; char ty[16]; cgsize_t d[12]; int nd = 0;
+            sscanf(line, "%*s %s %s %s %15s %s %s", a[0], a[1], a[2], ty, a[3], a[4]); unhex(a[0], b[0]); unhex(a[1], b[1]); unhex(a[2], b[2]);
+            for (char *q = a[3]; *q && *q != '-'; ) { d[nd++] = (cgsize_t)strtoll(q, &q, 10); if (*q == ',') q++; }
+            static char data[8000]; unhex(a[4], data);
+            if (!IOOPEN || io_node(b[0], &pid) || cgio_create_node(IO, pid, b[1], &id) || cgio_set_label(IO, id, b[2]) ||
+                cgio_set_dimensions(IO, id, ty, nd, d) || (nd && cgio_write_all_data(IO, id, data))) printf("err io\n"); else printf("ok\n");
+        } else if (!strcmp(cmd, "io.label") || !strcmp(cmd, "io.rename")) {
+            double id, pid; sscanf(line, "%*s %s %s", a[0], a[1]); unhex(a[0], b[0]); unhex(a[1], b[2]);
+            char *sl = strrchr(b[0], '/'); strcpy(b[1], b[0]); b[1][sl - b[0] ? sl - b[0] : 1] = 0;
+            if (!IOOPEN || io_node(b[0], &id) || io_node(b[1], &pid) ||
+                (cmd[3] == 'l' ? cgio_set_label(IO, id, b[2]) : cgio_set_name(IO, pid, id, b[2]))) printf("err io\n"); else printf("ok\n");
         } else if (!strcmp(cmd, "dbg")) {
             if (getenv("C08_DBG")) {      /* development aid: which descriptors are open (stderr only) */
                 char lk[64], tg[600];
